@@ -86,7 +86,7 @@ class Checker:
 
     # ------------------------------------------------------------------ record
     def ob(self, rule, construct, ok, detail="", loc="", nontrivial=True, undecided=False,
-           terms=()):
+           terms=(), firm=False):
         """one obligation: rule id, normalised construct (no line numbers), verdict.
 
         A failed obligation is a *violation* only when what the analysis derived is fully
@@ -94,7 +94,9 @@ class Checker:
         the engine could only treat as unknown - an unresolved call, an unsummarised loop variable,
         an undefined name, an unmodelled statement - the honest verdict is *undecided*: the code may
         well be right, written in an idiom outside the modelled fragment."""
-        if not ok and not undecided:
+        # (firm: the rule decoded the construct it complains about - e.g. followed a new private
+        # table to the constructor that builds it -, so naming it is not a sign of a gap)
+        if not ok and not undecided and rule not in FIRM_RULES and not firm:
             why = opaque_reason(detail, terms) or opaque_reason(construct)
             if why:
                 undecided = True
